@@ -751,6 +751,7 @@ func (r *replicateChannelManager) startReadChannel(ctx context.Context, sourceIn
 			zap.String("mapping_value", channelMappingValue))
 		r.forwardChannel(channelMappingValue)
 	}
+	r.updateSourcePChannelMap(sourceInfo.CollectionID, sourceInfo.PChannel, channelMappingKey)
 	// the msg dispatch client maybe blocked, and has get the target channel,
 	// so we can use the goroutine and release the channelLock
 	go channelHandler.AddCollection(taskID, sourceInfo, targetInfo)
